@@ -398,7 +398,26 @@ Proof. intros H l. induction l; cbn; [reflexivity|]. now rewrite H, IHl. Qed.
 Lemma str_list_eqb_refl l : list_eqb String.eqb l l = true.
 Proof. apply list_eqb_refl. apply String.eqb_refl. Qed.
 
+(* the goal [G = true] over finitely many atoms is first folded into ONE local function F of the
+   atoms (so that the predicates handed to all_*_ok mention F, not copies of G), then enumerated *)
+Ltac abs_one x f := let p := eval pattern x in f in lazymatch p with ?g _ => g end.
+Ltac abs_atoms f k :=
+  lazymatch goal with
+  | x : bool |- _ => let f' := abs_one x f in revert x; abs_atoms f' k
+  | x : action |- _ => let f' := abs_one x f in revert x; abs_atoms f' k
+  | x : option bool |- _ => let f' := abs_one x f in revert x; abs_atoms f' k
+  | _ => k f
+  end.
+Ltac intro_app app :=
+  lazymatch goal with
+  | |- forall _ : _, _ => let x := fresh "atom" in intro x; intro_app constr:(app x)
+  | |- _ => change (app = true)
+  end.
 Ltac enum_all :=
+  lazymatch goal with
+  | |- ?G = true =>
+      abs_atoms G ltac:(fun f => let F := fresh "F" in pose (F := f); intro_app F)
+  end;
   repeat match goal with
   | x : bool |- _ => revert x; apply all_bool_ok
   | x : action |- _ => revert x; apply all_act_ok
